@@ -1274,7 +1274,8 @@ def _caller_ok(prog, case):
     t = case['target'][1]
     if case['op'] == 'K6':
         comp = set(case['params']['component'])
-        return t not in comp and any(t in direct_callers(prog, m) for m in comp)
+        return t not in comp and any(r['pred'] == t and common.deps_of_rule(r) & comp
+                                     for r in prog['rules'])
     site = _site_rule(case['params'])
     return site is not None and t in direct_callers(prog, prog['rules'][site]['pred'])
 
